@@ -126,6 +126,12 @@ class Schema2DF(Schema2Base):
             constants.description: entry.description,
             constants.equivalent_to: self._get_tag_equivalent_to(entry),
         }
+        if not include_props:
+            # A stand-in for an entry of the partnered schema (a library adds units to its unit class): name only
+            new_row[constants.hed_id] = ""
+            new_row[constants.attributes] = ""
+            new_row[constants.description] = ""
+            new_row[constants.equivalent_to] = ""
         # Handle the special case of units, which have the extra unit class
         if hasattr(entry, "unit_class_entry"):
             class_entry_name = entry.unit_class_entry.name
